@@ -15,3 +15,5 @@ import SkyllhModel.Props.C05
 import SkyllhModel.Props.C01
 import SkyllhModel.Props.C03
 import SkyllhModel.Props.C02
+import SkyllhModel.Props.C17
+import SkyllhModel.Props.C20
